@@ -100,6 +100,8 @@ def do_op(w, cfg, op):
             arr = _strided(arr)
         elif lay == "as_complex":
             arr = _as_native_complex(cfg, arr)
+        elif lay == "flat_iq" and cfg.cstyle == "interleaved" and cfg.nsub == 1:
+            arr = arr.reshape(-1)
         return int(w.rf_write_blocks(arr, ga, ba))
     raise ValueError("unknown op %r" % k)
 
@@ -136,7 +138,15 @@ def run_session(report, top, cfg, ops, session=0, sync=False, before_op=None):
                     "get": getters(w)})
     report({"ev": "begin", "call": "close", "s": session})
     try:
-        w.close()
+        if getattr(cfg, "exit_by_exception", False):
+            # `with writer:` left by an exception of the application (the usual way a recorder script dies)
+            try:
+                with w:
+                    raise KeyError("application error inside the with block")
+            except KeyError:
+                pass
+        else:
+            w.close()
     except Exception as e:  # noqa
         report({"ev": "end", "call": "close", "s": session, "ok": False, "exc": type(e).__name__})
     else:
